@@ -327,6 +327,15 @@ fn viterbi_matrices<O, M: Model<O>>(
         }
     }
 
+    // With explicit end probabilities, the probability of a path includes the end probability
+    // of its last state (as in `forward` and `backward`).
+    if hmm.has_end_state() && !observations.is_empty() {
+        let last = observations.len() - 1;
+        for s in hmm.states() {
+            vals[[last, *s]] = vals[[last, *s]] + hmm.end_prob(s);
+        }
+    }
+
     (vals, from)
 }
 
